@@ -151,7 +151,7 @@ func finishRun(e *Engine, results []*FnResult, ro runOpts) int {
 			if o.Status == "discharged" && (o.Kind == "vacuity" || o.Kind == "reach") {
 				if r.Contract != nil {
 					for _, u := range r.Contract.Unreachable {
-						if strings.HasSuffix(o.Name, "reach@"+u) {
+						if strings.HasSuffix(o.Name, "reach@"+u) || strings.HasSuffix(strings.TrimRight(o.Name, "0123456789~"), "reach@"+u) {
 							machinery = append(machinery, o.Name+": declared unreachable but the solver found it reachable")
 						}
 					}
@@ -174,7 +174,7 @@ func finishRun(e *Engine, results []*FnResult, ro runOpts) int {
 				declared := false
 				if r.Contract != nil {
 					for _, u := range r.Contract.Unreachable {
-						if strings.HasSuffix(o.Name, "reach@"+u) {
+						if strings.HasSuffix(o.Name, "reach@"+u) || strings.HasSuffix(strings.TrimRight(o.Name, "0123456789~"), "reach@"+u) {
 							declared = true
 						}
 					}
